@@ -89,8 +89,19 @@ func cmdCli(args []string) int {
 				argv = []string{expr, expr}
 				stdin = input
 			}
+			var stdinFile *os.File
 			cmd := exec.Command(*bin, argv...)
 			cmd.Stdin = strings.NewReader(stdin)
+			if r.Chan == "stdin" && sum.Cases%3 == 0 {
+				// standard input that is a regular file positioned after a prefix another reader consumed
+				p := filepath.Join(tmp, "stdin.dat")
+				os.WriteFile(p, []byte("# consumed header\n"+stdin), 0o644)
+				if fh, err := os.Open(p); err == nil {
+					fh.Seek(int64(len("# consumed header\n")), 0)
+					cmd.Stdin = fh
+					stdinFile = fh
+				}
+			}
 			var so, se bytes.Buffer
 			cmd.Stdout, cmd.Stderr = &so, &se
 			done := make(chan error, 1)
@@ -102,6 +113,9 @@ func cmdCli(args []string) int {
 			case <-time.After(20 * time.Second):
 				cmd.Process.Kill()
 				werr = fmt.Errorf("timeout")
+			}
+			if stdinFile != nil {
+				stdinFile.Close()
 			}
 			sum.Evaluations++
 			code := 0
